@@ -336,7 +336,110 @@ pub fn run_c15(cfg: &ShardCfg, out: &mut ShardOut) {
             }
         }
     }
+    // the other constructors: the value holds exactly the bytes it was built from
+    if cfg.shard == 1 % cfg.shards {
+        let mut cases: Vec<(&str, Vec<u8>)> = vec![("empty", vec![]), ("bool", vec![0]), ("bool", vec![1])];
+        for len in 0..=(if cfg.thorough { 40 } else { 20 }) {
+            for c in contents(&mut rng, len) {
+                cases.push(("from_slice", c));
+            }
+        }
+        let texts = ["", "a", "hello", "12345678", "123456789", "Привет", "𝜑𝜑", "€uro-€", "ααααα", "0123456789abcdefXYZ", " ", "\u{0}\u{0}"];
+        for t in texts {
+            cases.push(("from_str_bytes", t.as_bytes().to_vec()));
+        }
+        for _ in 0..(if cfg.thorough { 3000 } else { 300 }) {
+            let k = rng.range(0, 24);
+            let t: String = (0..k).map(|_| *rng.pick(&['a', 'Z', '0', ' ', 'é', 'я', '€', '𝜑', '\n'])).collect();
+            cases.push(("from_str_bytes", t.into_bytes()));
+        }
+        let edge32: [u32; 12] = [0, 1, 0xFF, 0x100, 0xFFFF, 0x1_0000, 0x7FFF_FFFF, 0x8000_0000, 0xFFFF_FFFF, 0x7F80_0000, 0xFF80_0000, 0x7FC0_0001];
+        for x in edge32 {
+            cases.push(("i32", x.to_be_bytes().to_vec()));
+            cases.push(("f32", x.to_be_bytes().to_vec()));
+        }
+        for _ in 0..(if cfg.thorough { 20000 } else { 2000 }) {
+            let x = rng.next();
+            cases.push(("i32", (x as u32).to_be_bytes().to_vec()));
+            cases.push(("f32", ((x >> 32) as u32).to_be_bytes().to_vec()));
+        }
+        for x in 0..=u16::MAX {
+            if x < 600 || x > 0x7F00 && x < 0x8100 || x > 0xFF00 || cfg.thorough {
+                cases.push(("i16", x.to_be_bytes().to_vec()));
+            }
+        }
+        for x in 0..=u8::MAX {
+            cases.push(("i8", vec![x]));
+        }
+        for (kind, arg) in cases {
+            sw.eval(true, &format!("ctor|{kind}|{}", hex(&arg)));
+            if let Err(m) = check_ctor(kind, &arg) {
+                sw.violation(&format!("C15:ctor-{kind}"), m, format!("ctor {kind} {}", if arg.is_empty() { "-".to_string() } else { hex(&arg) }));
+            }
+        }
+        sw.out.counters.inc("c15.constructors-checked(empty,from_slice,from_str_bytes,i32,i16,i8,f32,bool)");
+    }
     sw.finish();
+}
+
+/// "A Hex holds exactly the bytes it was built from" for the constructors besides from_vec / the enum variants:
+/// `kind` names the constructor, `arg` its argument as hex bytes (big-endian bytes of the number, the UTF-8 text, ...).
+pub fn check_ctor(kind: &str, arg: &[u8]) -> Result<(), String> {
+    let a = arg.to_vec();
+    let built = guarded(move || -> Option<Hex> {
+        Some(match kind {
+            "empty" => Hex::empty(),
+            "from_slice" => Hex::from_slice(&a),
+            "from_str_bytes" => Hex::from_str_bytes(std::str::from_utf8(&a).ok()?),
+            "i32" => Hex::from(i32::from_be_bytes(a.as_slice().try_into().ok()?)),
+            "i16" => Hex::from(i16::from_be_bytes(a.as_slice().try_into().ok()?)),
+            "i8" => Hex::from(i8::from_be_bytes(a.as_slice().try_into().ok()?)),
+            "f32" => Hex::from(f32::from_be_bytes(a.as_slice().try_into().ok()?)),
+            "bool" => Hex::from(a.first().copied()? != 0),
+            _ => return None,
+        })
+    });
+    let h = match built {
+        Err(p) => return Err(format!("{kind}({}) panicked: {p}", hex(arg))),
+        Ok(None) => return Ok(()),
+        Ok(Some(h)) => h,
+    };
+    let want: Vec<u8> = match kind {
+        "empty" => vec![],
+        "bool" => vec![u8::from(arg[0] != 0)],
+        // (a NaN payload may be quietened when an f32 travels through a register: only the class must survive)
+        "f32" if f32::from_be_bytes(arg.try_into().unwrap()).is_nan() => {
+            let got = guarded(|| h.bytes().to_vec()).unwrap_or_default();
+            if got.len() == 4 && f32::from_be_bytes(got.as_slice().try_into().unwrap()).is_nan() {
+                got
+            } else {
+                arg.to_vec()
+            }
+        }
+        _ => arg.to_vec(),
+    };
+    let got = guarded(|| (h.bytes().to_vec(), h.len(), h.is_empty(), h.to_vec(), h.print()));
+    match got {
+        Err(p) => Err(format!("an accessor of the value built by {kind}({}) panicked: {p}", hex(arg))),
+        Ok((b, l, e, v, pr)) => {
+            if b != want || l != want.len() || e != want.is_empty() || v != want || pr != expected_print(&want) {
+                return Err(format!(
+                    "{kind}({}) holds bytes [{}] len {l} is_empty {e} to_vec [{}] print {pr:?}; built from [{}]",
+                    hex(arg),
+                    hex(&b),
+                    hex(&v),
+                    hex(&want)
+                ));
+            }
+            // equal to the same bytes in the other representations
+            for other in [Hex::from_vec(want.clone()), Hex::Vector(want.clone())] {
+                if guarded(|| h == other && other == h) != Ok(true) {
+                    return Err(format!("the value built by {kind}({}) is not equal to the same bytes built by from_vec / Hex::Vector", hex(arg)));
+                }
+            }
+            Ok(())
+        }
+    }
 }
 
 // ------------------------------------------------------------------------------------ C16
@@ -706,6 +809,12 @@ pub fn replay(rp: &crate::shard::Replay) -> bool {
             Some("labelvalue") => {
                 let l = crate::ops::parse_label(it.next().unwrap_or("")).expect("label");
                 check_label_value(&l)
+            }
+            Some("ctor") => {
+                let kind = it.next().unwrap_or("").to_string();
+                let a = it.next().unwrap_or("-");
+                let arg = if a == "-" { vec![] } else { crate::ops::unhex(a).unwrap_or_default() };
+                check_ctor(&kind, &arg)
             }
             Some("i64") | Some("f64") => Ok(()),
             _ => Err(format!("cannot parse replay line {line}")),
